@@ -848,22 +848,25 @@ def declaredPrefixes : List Str :=
 
 /-- `utils._validate_xml_name` for an attribute: an XML name whose prefix (if any) is declared on
     `h:html` (prefixes `xml` / `xmlns` are left to `unsupported`) -/
-def attrNameOK (k : Str) : Bool :=
+def attrNameOK (k : Str) (extra : List Str := []) : Bool :=
   Rows.isXmlTag k &&
   (match splitOnChar ':' k with
    | [_] => true
-   | p :: _ => declaredPrefixes.contains p
+   | p :: _ => (declaredPrefixes ++ extra).contains p
    | [] => false)
 
 /-- `utils.validate_xml_document` restricted to one bind element -/
-def bindValid (b : Bind) : Bool := b.attrs.all fun kv => attrNameOK kv.1 && kv.2.all xmlChar
+def bindValid (b : Bind) (extra : List Str := []) : Bool :=
+  b.attrs.all fun kv => attrNameOK kv.1 extra && kv.2.all xmlChar
 
 /-- classified rows ↦ the bind elements, in document order -/
 def metaElem (root : Str) (q : Q) : Elem := { path := [root, "meta".toList, q.name], q }
 
 def allNames (ks : List RK) (metas : List Q) : List Str := ks.flatMap rkNames ++ metas.map (·.name)
 
-def bindsOfRows (root : Str) (ks : List RK) (metas : List Q) : Out :=
+/-- classified rows + meta block ↦ the bind elements, in document order.  `extra`: namespace prefixes declared
+    on `h:html` besides the standard ones (`entities` when an entity is declared — C19; settings `namespaces`) -/
+def bindsOfRows (root : Str) (ks : List RK) (metas : List Q) (extra : List Str := []) : Out :=
   let names := (allNames ks metas).map lowerAscii
   if !(decide names.Nodup) || names.any (reservedNames root).contains then .unsupported "names not unique" else
   if emptySection false ks then .unsupported "empty group" else
@@ -873,7 +876,9 @@ def bindsOfRows (root : Str) (ks : List RK) (metas : List Q) : Out :=
   | some es =>
     match renderAll root (topNames 0 ks) (es ++ (metas.map (metaElem root) ++ [instanceID root])) with
     | none => .unsupported "reference or value outside the fragment"
-    | some bs => if bs.all bindValid then .ok bs else .unsupported "attribute name or character not allowed in XML"
+    | some bs =>
+      if bs.all (fun b => bindValid b extra) then .ok bs
+      else .unsupported "attribute name or character not allowed in XML"
 
 /-- survey header row + raw rows ↦ the bind elements, in document order -/
 def formBinds (root dl : Str) (lists : List Str) (headers : List Str) (rows : List (List (Str × Str))) : Out :=
